@@ -180,6 +180,19 @@ Theorem params_ok_holds : params_ok = true.
 Proof. exact params_ok_true. Qed.
 Print Assumptions params_ok_holds.
 
+(* 12b. Any sequence of transactions and inbound ETXs (the Quai part of a block; messages refused with a
+   consensus error are not included): balances stay non-negative and the sum moves by exactly the totals of
+   gas charges, ETX debits, destroyed value, rent refunds and inbound values; all totals only grow. *)
+Theorem block_never_creates_value : forall l b acc b' acc',
+  Forall wf_txn l -> nonneg b -> run_block l b acc = (b', acc') ->
+  nonneg b'
+  /\ bsum b' = bsum b - (tot_charge acc' - tot_charge acc) - (tot_etx acc' - tot_etx acc) - (tot_burn acc' - tot_burn acc)
+               + (tot_rent acc' - tot_rent acc) + (tot_inbound acc' - tot_inbound acc)
+  /\ tot_charge acc <= tot_charge acc' /\ tot_etx acc <= tot_etx acc' /\ tot_burn acc <= tot_burn acc'
+  /\ tot_inbound acc <= tot_inbound acc'.
+Proof. exact block_conserves. Qed.
+Print Assumptions block_never_creates_value.
+
 (* 13. The correspondence check evaluates, on every observed case, a boolean that implies the hypotheses
    used above (non-negative value/gas/price/pre-balances, 0 <= gas left <= limit, inbound ETX price 0). *)
 Theorem case_hypotheses_checked : forall c, hyps_ok c = true ->
@@ -220,6 +233,14 @@ Example failed_tx_nonvacuous :
     /\ is_top top = true /\ store_oog top = false
     /\ bal s' = [(1%N, 760000); (2%N, 7); (3%N, 0); (4%N, 1)].
 Proof. eexists. split; [vm_compute; reflexivity|]. repeat split; reflexivity. Qed.
+
+Example block_nonvacuous :
+  let t1 := mkTxn false nv_env nv_msg nv_opq nv_top in
+  let t2 := mkTxn true nv_env (mkMsg 0%N 900 500000 0 true KNormal false 0 0 0 0) (mkOpq true 400000 0 false)
+                  (ACall 0%N 3%N 900 2%N false [] false) in
+  exists b' acc', run_block [t1; t2] nv_pre tot0 = (b', acc')
+    /\ bsum b' = bsum nv_pre - 240000 - 46 - 0 + 50000 + 900 /\ tot_inbound acc' = 900 /\ tot_rent acc' = 50000.
+Proof. eexists. eexists. split; [vm_compute; reflexivity|]. repeat split; reflexivity. Qed.
 
 (* an inbound ETX whose target reverts: the staged value is lost, nothing is created *)
 Example inbound_etx_nonvacuous :
